@@ -7,7 +7,7 @@ PROF = projgen.profile(p_subdir=0.7, p_defaults=0.6, p_ctxlist=0.4, p_multidoc=0
 # for the inlining metamorphic test: defaults that CAN be written inline (no if-then maps, no early variables, no '-name' in defaults)
 PROF_INLINE = projgen.profile(p_subdir=0.6, p_defaults=0.8, p_ctxlist=0.0, p_multidoc=0.3, p_include=0.0, p_removes=0.15, p_ifthen=0.0,
                               p_tasks=0.05, p_custom_build=0.0, p_download=0.0, p_varopts=0.05, p_optsrc=0.0)
-OBS = ("status", "decision", "modules", "global_env", "module_env", "outfile", "tasks", "ninja")
+OBS = ("status", "decision", "modules", "loaded", "global_env", "module_env", "outfile", "tasks", "ninja")
 EARLY = ("${relpath}", "${srcdir}", "${root}")
 
 
